@@ -17,7 +17,8 @@ CONSTANTS MaxOps, Scalars
 \* operand pool
 Pool == << << <<1, 1>> >>,                          \* p1
            << <<2, 1>>, <<-1, 2>>, <<3, 0>> >>,     \* 2 p1 - p2 + 3
-           << <<0, 2>>, <<1, 2>> >> >>              \* 0 p2 + p2
+           << <<0, 2>>, <<1, 2>> >>,                \* 0 p2 + p2
+           << <<1, 1>>, <<2, 0>>, <<5, 0>> >> >>    \* p1 + 2 + 5  (two constant entries, as push / new allow)
 Assignments == { [t \in 1..2 |-> IF t = 1 THEN 5 ELSE 7], [t \in 1..2 |-> IF t = 1 THEN -3 ELSE 11] }
 
 VARIABLES lc, vals, hist
